@@ -68,7 +68,14 @@ UnExprs(op, xs) == LET ts == UnTuples(xs) IN [i \in DOMAIN ts |-> Un(op, ts[i])]
 ExtBin(fn, xs, ys) == LET ts == BinTuples(xs, ys) IN [i \in DOMAIN ts |-> Ext(fn, <<ts[i][1], ts[i][2]>>)]
 ExtUn(fn, xs) == LET ts == UnTuples(xs) IN [i \in DOMAIN ts |-> Ext(fn, <<ts[i]>>)]
 
-Anys == <<T, L1, SA, UA, PVar, CK, Sets[1], Recs[2]>>
+\* (Recs[2] is the whole context; CtxB[2] and {n: 2} are literal records it / context.r may equal)
+Anys == <<T, L1, SA, UA, PVar, CK, Sets[1], Recs[2], V(CtxB[2]), V(VRec([k |-> VInt(1), s |-> VStr(<<97>>)]))>>
+WholeRecordCmp == << Bin("eq", CVar, V(VRec([k |-> VInt(1), s |-> VStr(<<97>>), e |-> U("a")]))),
+                     Bin("eq", Acc(CVar, "r"), V(VRec([n |-> VInt(2)]))),
+                     Bin("ne", CVar, V(VRec([k |-> VInt(1), s |-> VStr(<<97>>)]))),
+                     Bin("contains", SetE(<<CVar>>), V(VRec([k |-> VInt(1), s |-> VStr(<<97>>), e |-> U("a")]))),
+                     Bin("contains", Acc(CVar, "ss"), L1), Bin("containsAll", Acc(CVar, "ss"), Sets[1]),
+                     Un("isEmpty", Acc(CVar, "ss")), Has(Acc(CVar, "r"), "n"), Has(CVar, "s") >>
 Pats == << <<97, -1>>, <<-1>>, <<98>> >>
 AttrNames == <<"n", "k", "a", "zz">>
 
@@ -87,7 +94,9 @@ ByOp == <<
   Flat([k \in DOMAIN AttrNames |-> LET ts == UnTuples(Ents \o Recs) IN [i \in DOMAIN ts |-> Acc(ts[i], AttrNames[k])]]),
   Flat([p \in DOMAIN Pats |-> LET ts == UnTuples(Strs) IN [i \in DOMAIN ts |-> [op |-> "like", a |-> ts[i], pat |-> Pats[p]]]]),
   Flat([t \in 1..2 |-> LET ts == UnTuples(Ents) IN [i \in DOMAIN ts |-> [op |-> "is", a |-> ts[i], ty |-> <<"U", "G">>[t]]]]),
-  LET ts == BinTuples(Ents, Ents \o <<Sets[3]>>) IN [i \in DOMAIN ts |-> [op |-> "isIn", a |-> ts[i][1], ty |-> "U", e |-> ts[i][2]]],
+  LET ts == BinTuples(Ents, Ents \o <<Sets[3]>>) IN
+     [i \in DOMAIN ts |-> [op |-> "isIn", a |-> ts[i][1], ty |-> "U", e |-> ts[i][2]]]
+     \o [i \in DOMAIN ts |-> [op |-> "isIn", a |-> ts[i][1], ty |-> "G", e |-> ts[i][2]]],
   LET cs == Bools \o Errs \o <<L1>>  bs == <<L1, NC, ErrE, SA>> IN
      Flat([c \in DOMAIN cs |-> Flat([t \in DOMAIN bs |-> [e \in DOMAIN bs |-> If(cs[c], bs[t], bs[e])]])]),
   LET es == <<L1, CK, ErrE, UA, PVar>> IN
@@ -101,7 +110,8 @@ ByOp == <<
   ExtUn("decimal", <<Str(<<49, 46, 53>>), Str(<<120>>), CS>>), ExtUn("ip", <<Str(<<58, 58, 49>>), CS>>),
   ExtUn("datetime", <<Str(<<50, 48, 50, 52, 45, 48, 50, 45, 50, 57>>), CS>>), ExtUn("duration", <<Str(<<49, 100>>), CS>>),
   << Ext("decimal", <<>>), Ext("lessThan", <<Decs[1]>>), Ext("nosuch", <<L1>>), Ext("isIpv4", <<Ips[1], Ips[1]>>) >>,
-  << T, F, L1, SA, UA, PVar, AVar, RVar, CVar, Sets[1], Recs[1], Decs[1] >>
+  << T, F, L1, SA, UA, PVar, AVar, RVar, CVar, Sets[1], Recs[1], Decs[1] >>,
+  WholeRecordCmp
 >>
 
 Depth1 == Flat(ByOp)
